@@ -6,8 +6,9 @@ through) is the ranking of the dispatcher model, which `C12_rank`, `C12_rank_sco
 -/
 import Neutrino.Props.C12
 import Neutrino.Lemmas.TransRank
+import Neutrino.Lemmas.TransQueue
 namespace Neutrino.Disp
-open Neutrino.Gen.TransRank Neutrino.GoInt
+open Neutrino.Gen.TransRank Neutrino.Gen.TransQueue Neutrino.GoInt
 
 /-- **The four ranking methods are the model's**, for every injective naming `enc` of peer
 addresses and every ranking map (for `Punish`: scores below 2^64 - 1, the code adds on `uint64`). -/
@@ -44,5 +45,41 @@ example : peerRanking_Reward "a" [("a", 0), ("b", 3)] = [("a", 0), ("b", 3)] := 
 example : peerRanking_Punish "a" [("b", 3), ("a", 8)] = [("b", 3), ("a", 8)] := by decide
 example : peerRanking_ResetRanking "b" [("b", 3), ("a", 8)] = [("b", 4), ("a", 8)] := by decide
 example : ∀ e ∈ [("b", 3), ("a", 8)], e.2 + 1 < 2 ^ 64 := by decide
+
+/-! ### the work queue's ordering (`workQueue.Less`, `queryJob.Index`; query/workqueue.go, worker.go) -/
+
+/-- **`Less` is "strictly smaller job index"**: for in-range positions it compares the `Index()` of the
+two tasks, `Index()` of a `queryJob` is its `index` field, and the comparison is the one the model's
+`insertJob` makes when it places a new job (so the queue the dispatcher theorems are about is ordered as the
+code's heap is). -/
+theorem C12_trans_workQueue_Less (tasks : List Atom) (index : Atom → Nat) (i j : Nat) (n : Nat)
+    (job : Atom → Job) (a b : Atom) (xs : List Job) :
+    workQueue_Less (i : Int) (j : Int) tasks index
+      = decide (index (tasks.getD i default) < index (tasks.getD j default)) ∧
+    queryJob_Index n = n ∧
+    insertJob (job a) (job b :: xs)
+      = (if workQueue_Less 0 1 [a, b] (fun t => queryJob_Index (job t).idx) = true
+         then job a :: job b :: xs else job b :: insertJob (job a) xs) :=
+  ⟨trans_less tasks index i j, trans_index n, trans_insertJob_step job a b xs⟩
+
+/-- a strict order on the job indices: never `Less(i, i)`, and of two positions with different indices
+exactly one is `Less` than the other (what `container/heap` needs to pop the smallest index first) -/
+theorem C12_trans_workQueue_Less_strict (tasks : List Atom) (index : Atom → Nat) (i j : Nat) :
+    workQueue_Less (i : Int) (i : Int) tasks index = false ∧
+    (index (tasks.getD i default) ≠ index (tasks.getD j default) →
+      (workQueue_Less (i : Int) (j : Int) tasks index = !workQueue_Less (j : Int) (i : Int) tasks index)) := by
+  simp only [trans_less]
+  generalize index (tasks.getD i default) = x
+  generalize index (tasks.getD j default) = y
+  refine ⟨by simp, ?_⟩
+  intro h
+  by_cases h1 : x < y
+  · have h2 : ¬ y < x := by omega
+    simp only [h1, h2, decide_true, decide_false, Bool.not_false]
+  · have h2 : y < x := by omega
+    simp only [h1, h2, decide_true, decide_false, Bool.not_true]
+
+example : workQueue_Less 0 1 [7, 9] (fun t => t * 10) = true := by decide
+example : workQueue_Less 1 0 [7, 9] (fun t => t * 10) = false := by decide
 
 end Neutrino.Disp
